@@ -116,6 +116,8 @@ class World:
         else:
             rm = RateMatrix(dim=N)
 
+        hist = {"max": 0.0}
+
         def Kmodel():
             K = numpy.zeros((N, N))
             for (i, j), v in model.items():
@@ -136,7 +138,9 @@ class World:
         def check_matrix(tag):
             K = Kmodel()
             data = numpy.array(rm.data, dtype=float)
-            scale = max(numpy.max(numpy.abs(K)), 1e-300)
+            # rounding errors of the compensation accumulate at the size of the largest rate ever assigned
+            hist["max"] = max(hist["max"], float(numpy.max(numpy.abs(K))), 1e-300)
+            scale = hist["max"]
             for i in range(N):
                 for j in range(N):
                     if i != j:
